@@ -192,6 +192,40 @@ def r_ctors(sh, rep):
     split(ifs[0]["cond"])
     foreign = [a for a in atoms if not re.search(r"(?<![\w.])%s\b" % re.escape(mod_param[0]), a)]
     rep.check(not foreign, "R07-CTORS", "get_constructors_for_type#local-table-only-for-local-types", sh.loc(ENVF, ifs[0]), "the local constructor table is consulted under `%s`, which does not depend on the type's defining module `%s`: an imported type whose name collides with a local or prelude type gets the other type's constructors — a non-exhaustive `when` is accepted, an exhaustive one rejected" % (foreign, mod_param[0]), sample={"condition": atoms})
+    # ... and *only* for the current module: the local table is keyed by the bare type name and a local declaration replaces
+    # the prelude's entry of the same name (insert_type_constructor allows it), so a prelude type (module "") must not be
+    # answered from it either. Every atom must be an equality of the type's module with self.current_module.
+    lets = {}
+    for n in walk(g["body"]):
+        if n.get("k") == "Let" and isinstance(n.get("pat"), dict) and n["pat"].get("k") == "Ident" and n.get("init") is not None:
+            lets.setdefault(n["pat"]["name"], n["init"])
+    norm_atoms = []
+    for a in atoms:
+        if re.fullmatch(r"\w+", a) and a in lets and a != mod_param[0]:
+            sub = []
+            saved, atoms2 = atoms, []
+
+            def split2(e):
+                if e.get("k") == "Binary" and e["op"] in ("||", "&&"):
+                    split2(e["l"])
+                    split2(e["r"])
+                elif e.get("k") == "Paren":
+                    split2(e["e"])
+                else:
+                    atoms2.append(sh.nsrc(ENVF, e))
+
+            split2(lets[a])
+            norm_atoms += atoms2
+        else:
+            norm_atoms.append(a)
+
+    def strip(a):
+        return re.sub(r"\.as_str\(\)|\.as_ref\(\)|\.clone\(\)|\.to_string\(\)|[*&()]", "", a)
+
+    mp = mod_param[0]
+    want = {"%s==self.current_module" % mp, "self.current_module==%s" % mp}
+    other = [a for a in norm_atoms if strip(a) not in want]
+    rep.check(not other, "R07-CTORS", "get_constructors_for_type#local-table-only-for-the-current-module", sh.loc(ENVF, ifs[0]), "the current module's constructor table — keyed by bare type name, and a local type may take a prelude type's name — is consulted under `%s`, which is not `%s == self.current_module`: with a local `type Bool { Yes No Maybe }` an exhaustive `when` over the prelude Bool is rejected with `Yes`, `No`, `Maybe` reported as unmatched" % (" / ".join(other), mp), sample={"condition": norm_atoms})
     # alternatives `p1 | p2 | p3` keep their source order through type checking (both the usefulness check and the decision
     # tree read the typed list)
     TEXP = "crates/aiken-lang/src/tipo/expr.rs"
